@@ -47,6 +47,41 @@ def marker_kinds(todos: list[str]) -> list[str]:
     return sorted(set(out))
 
 
+MSG_KIND = {"no tuple support": "tuple", "no set support": "set", "List": "listmulti", "Set": "setmulti", "OPT_POS_ONLY": "optposonly",
+            "REQ_NAME_ONLY": "reqkwonly", "multiple_inheritance": "multi", "variadic": "variadic", "class_method": "classmethod",
+            "param without type": "pmiss", "attr without type": "amiss", "result without type": "rmiss", "unknown value": "unknownvalue"}
+
+
+def todo_event(e) -> dict:
+    """Recorded event -> [e, k, out] with the generator's message keys renamed to the marker kinds of the specification."""
+    kind = lambda m: MSG_KIND.get(m, "other:" + str(m))  # noqa: E731
+    if e[0] == "raise":
+        return {"e": "raise", "k": kind(e[1]), "out": []}
+    if e[0] == "flush":
+        return {"e": "flush", "k": "", "out": [kind(m) for m in e[1]]}
+    return {"e": e[0], "k": e[1].replace("_create_", "").replace("_string", ""), "out": []}
+
+
+def judge_events(v: Verdict, events: list) -> list[dict]:
+    from common import fresh_dir
+    from tlc import run_tlc, write_json
+    f = write_json(fresh_dir("obs") / "events.json", events)
+    r = run_tlc("C20_TodoTrace", "C20_TodoTrace.cfg", workers=1, env={"OBS_FILE": str(f)}, timeout=1800)
+    v.add_tlc(r)
+    if not r["ok"]:
+        v.machinery(f"trace validation C20_TodoTrace failed: {r['errors'][:3]}")
+        return []
+    if r["distinct"] != len(events) + 1:
+        v.machinery(f"trace validation C20_TodoTrace: consumed {r['distinct'] - 1} of {len(events)} events")
+    v.traces += 1
+    out = []
+    for rec in r["records"]:
+        if isinstance(rec, dict):
+            for b in rec.get("bad", []):
+                out.append(dict(b, subject=rec.get("id")))
+    return out
+
+
 def params_src(f: set, recv: str = "") -> str:
     opt = "optposonly" in f
     sfx = " | None = None" if opt else ""
@@ -202,7 +237,7 @@ def main(v: Verdict) -> None:
     for cont, parts in mods.items():
         files[modname[cont] + ".py"] = "\n".join(parts)
     pkg = write_pkg(files, PKG)
-    r = run_many([{"src": pkg, "opts": Opts(), "timeout": 900}])[0]
+    r = run_many([{"src": pkg, "opts": Opts(), "timeout": 900, "trace_todo": True}])[0]
     if r.exit != "ok":
         v.machinery(f"run failed: {r.exit} {r.exc} {r.frame} {r.msg}")
         return
@@ -233,6 +268,16 @@ def main(v: Verdict) -> None:
                 obs.append({"id": f"{loc[1]}/{m.pyname}", "obs": {"cont": "module-classes-member", "shape": {"c": m.kind, "vis": True, "f": []}, "prev": shape["f"],
                                                                     "missing": False, "shown": shown_of(m), "todos": marker_kinds(m.todos)}})
     bad = judge(v, "C20_Trace", obs)
+    # the bookkeeping itself: the real generator's raise / flush / enter events stepped through TodoFlush's actions
+    events = [todo_event(e) for e in r.todo]
+    v.extra["bookkeeping_events_validated"] = len(events)
+    if len(events) < 1000:
+        v.machinery(f"only {len(events)} bookkeeping events were recorded {r.msg}")
+    else:
+        tb = judge_events(v, events)
+        for b in tb:
+            b["events_before"] = events[max(0, int(b.get("subject") or 1) - 8): int(b.get("subject") or 1)]
+        bad += tb
     by_id = {o["id"]: o for o in obs}
     for b in bad:
         o = by_id.get(b.get("subject"))
